@@ -39,6 +39,13 @@ q('pushn_cap2', 2, ['PUSHN(0,2)', 'POP();POP()'])
 q('popn_cap2', 2, ['PUSH(0);PUSH(1)', 'POPN(2)'])
 q('pushn_wrap_cap2', 2, ['PUSH(0);PUSHN(1,2)', 'POP();POPN(2)'])
 q('batch_both_cap2', 2, ['PUSHN(0,2)', 'POPN(2)'])
+# mixed modes allowed by the pairing rules: spin-waiting producers that futex-wake, futex-waiting consumers that do not wake
+MIXP = ['VF_PFW=false', 'VF_PFK=true', 'VF_CFW=true', 'VF_CFK=false']
+q('mixed_pushn_wrap_cap2', 2, ['PUSH(0);PUSHN(1,2)', 'POP();POPN(2)'], extra_defs=MIXP)
+q('mixed_pushn_wrap_two_consumers', 2, ['PUSH(0);PUSHN(1,2)', 'POP();POP()', 'POP()'], extra_defs=MIXP)
+q('mixed_spsc_cap1', 1, ['PUSH(0);PUSH(1)', 'POP();POP()'], extra_defs=MIXP)
+MIXC = ['VF_PFW=true', 'VF_PFK=false', 'VF_CFW=false', 'VF_CFK=true']
+q('mixed_popn_wrap_cap2', 2, ['PUSH(0);PUSHN(1,2)', 'POP();POPN(2)'], extra_defs=MIXC)
 q('try_mix_cap1', 1, ['TRYPUSH(0);TRYPUSH(1)', 'TRYPOP();TRYPOP()'], extra_defs=['VF_LEFT=1'], props={'assert': 'C01'})
 q('try_must_cap2', 2, ['PUSH(0);SIGNAL(0)', 'AWAIT(0);MUST_TRYPOP()'], props={'assert': 'C01'})
 q('try_must_push_cap1', 1, ['PUSH(0);SIGNAL(0);', 'AWAIT(0);POP();SIGNAL(1)', 'AWAIT(1);MUST_TRYPUSH(0)'], extra_defs=['VF_LEFT=1'], props={'assert': 'C01'})
@@ -126,6 +133,7 @@ tp('pub_close_consume', ['PUB(11);PUB(22);CLOSE()', 'auto c = t->subscribe();CON
 tp('two_consumers', ['PUB(11);PUB(22);CLOSE()', 'auto c = t->subscribe();CONS1();CONS1();CONS1()', 'auto c = t->subscribe();CONS2();CONS1()'], SEQ12(1) + ';' + SEQ12(2), tiers=('thorough',))
 tp('two_consumers_one_item', ['PUB(11);CLOSE()', 'auto c = t->subscribe();CONS1();CONS1()', 'auto c = t->subscribe();CONS2()'], 'vf_check(ngot[1]==1 && got[1][0]==11 && ended[1]==1 && ngot[2]==1 && got[2][0]==11 && ended[2]==1, 1)', tiers=('thorough',))
 tp('batch_pub', ['PUBN2(11,22);CLOSE()', 'auto c = t->subscribe();CONS2();CONS1()'], SEQ12(1))
+tp('after_clear', ['PUB(11);PUB(22);CLOSE()', 'auto c = t->subscribe();CONS1();CONS1();CONS1()'], SEQ12(1), extra=['VF_INIT=t->publish(mk(5)); t->close(); t->clear()'])
 tp('two_publishers', ['PUB(11)', 'PUB(22)', 'AWAIT(0);AWAIT(1);CLOSE()' , 'auto c = t->subscribe();CONS1();CONS1();CONS1()'],
    'vf_check(ngot[3]==2 && got[3][0]+got[3][1]==33 && got[3][0]!=got[3][1] && ended[3]==1, 1)', extra=['VF_T0=PUB(11);SIGNAL(0)', 'VF_T1=PUB(22);SIGNAL(1)'])
 
@@ -140,7 +148,10 @@ TH = ('thorough',)
 eq('inline_one', ['EXEC(0,1)'], 'vf_check(nconsumed==1 && consumed[0]==1, 1)')
 eq('inline_1x1', ['EXEC(0,1)', 'EXEC(0,2)'], ALL2)
 eq('parked_1x1', ['EXEC(0,1)', 'RUN_PARKED(0)', 'EXEC(0,2)'], ALL2, mode=1)
-eq('refused_1x1', ['EXEC(0,1)', 'EXEC(0,2)'], 'if (ret[0][0]==0 && ret[1][0]==0) {' + ALL2 + '}', mode=2, tiers=TH, timeout=3600)
+eq('refused_1x1', ['EXEC(0,1)', 'EXEC(0,2)'], 'if (ret[0][0]==0 || ret[1][0]==0) {' + ALL2 + '}', mode=2, extra=['VF_REFUSE=2'], tiers=TH, timeout=7200)
+# two refused launches racing a second producer, then (after both) an accepted signal must drain everything pending
+S('eq_seq_refusals', 'execq/eq_seq.cpp', {'assert': 'C16'}, extra=['babylon/basic_executor.cpp'], models=['sc'], bound=8)
+eq('refused_twice_then_recover', ['EXEC(0,1);SIGNAL(0)', 'SIGNAL_ONLY(0);SIGNAL(1)', 'AWAIT(0);AWAIT(1);EXEC(0,2)'], 'if (ret[2][0]==0) {' + ALL2 + '}', mode=3, cap=2, extra=['VF_REFUSE=2'], tiers=TH, timeout=7200, qcap=3000)
 eq('refused_seq', ['EXEC(0,1);EXEC(1,2)'], 'if (ret[0][1]==0) {' + ALL2 + ' vf_check(consumed[0]==1, 4); }', mode=2, tiers=TH, timeout=3600)
 eq('join_1', ['EXEC(0,1);SIGNAL(0)', 'RUN_PARKED(0)', 'AWAIT(0);JOIN_THEN_CHECK(1)'], 'vf_check(nconsumed==1, 1)', mode=1, tiers=TH, timeout=3600)
 eq('inline_two_seq', ['EXEC(0,1);EXEC(1,2)'], ALL2 + 'vf_check(consumed[0]==1, 4);', tiers=TH)
